@@ -190,6 +190,13 @@ EvStep ==
           \cup (IF pend[e].src = "explore" /\ pend[e].act # E.act THEN {"ExploredActionPassed"} ELSE {})
           \cup (IF pend[e].src = "policy" /\ pend[e].act # "unknown" /\ pend[e].act # E.act THEN {"ChosenActionPassed"} ELSE {})
           \cup (IF Eps4 = 0 /\ C.start + executed >= C.warmact /\ pend[e].src = "explore" THEN {"EpsilonZeroAlwaysGreedy"} ELSE {})
+          (* C13, loop clause at execution time: with exploration probability 0 the action PASSED to the environment is a
+             maximiser of the routine's CURRENT estimate at the observation the environment returned last.  E.qrow holds
+             the action values of that estimate (float32 ordinals) as they are when the environment receives the action;
+             it is independent of the routine's own greedy evaluations (policy events), so a choice made before an
+             update and executed after it is judged against the updated estimate. *)
+          \cup (IF E.has_q /\ Eps4 = 0 /\ C.start + executed >= C.warmact /\ ~CIsMaximiser(E.qrow, E.acti + 1)
+                THEN {"ExecutedActionGreedy"} ELSE {})
           \cup (IF C.policy_probe /\ pend[e].src = "none" THEN {"ActionWithoutChoice"} ELSE {}))
 
 (* a transition kept for learning: must be the oldest produced-but-unstored one of that stream *)
